@@ -123,9 +123,10 @@ def coq_make(targets, timeout=1500, keep_going=False):
 
 def coq_closure(vfile):
     """Project files (relative to coq/) that vfile transitively depends on, incl. itself."""
-    ensure_makefile()
-    files = project_files()
-    rc, out = sh(["coqdep", "-Q", ".", "BV"] + files, 120, cwd=COQ)
+    with build_lock():
+        ensure_makefile()
+        files = project_files()
+        rc, out = sh(["coqdep", "-Q", ".", "BV"] + files, 120, cwd=COQ)
     deps = {}
     for line in out.splitlines():
         if ":" not in line:
